@@ -1,32 +1,18 @@
-//! C01, C03, C13, C14 (and, through the same engine, C12): the codec monitors.
-//!
-//! One *base case* is a struct type T, a canonical value V (fixed point of the
-//! reference codec) and B = enc_ref(V).  The real decoder/encoder of T is run
-//! on B and judged against V (C03: layout, both directions; C01: round trip).
-//! C13 and C14 mutate the reference chunk tree of B and judge the real decoder
-//! against the reference decoder applied to the very same bytes.
+//! Drivers of C01, C03, C13, C14 on the shipped struct types (engine: refcodec::engine).
 
-use crate::sut::{decode_type, panic_signature, run_type, Outcome};
-use crate::{sharded, Ctx};
-use refcodec::codec::{CanonFail, Codec, Group, Node, Payload, RefErr, Reject, StructNode};
-use refcodec::evidence::Report;
-use refcodec::gen::{Gen, GenCfg, Presence};
+use crate::sut::{decode_type, run_type};
+use crate::Ctx;
+use refcodec::codec::Codec;
+use refcodec::engine::*;
 use refcodec::hex;
-use refcodec::layout::*;
-use refcodec::prng::{fnv, Rng};
-use refcodec::val::{first_diff_field, render_struct, val_to_json, Val};
+use refcodec::val::render_struct;
 use serde_json::json;
-use std::collections::BTreeSet;
-
-pub trait Sut {
-    /// decode, re-encode, decode again
-    fn run(&mut self, key: &str, bytes: &[u8]) -> Outcome;
-    /// decode only
-    fn decode(&mut self, key: &str, bytes: &[u8]) -> Outcome;
-}
 
 pub struct InProc;
 impl Sut for InProc {
+    fn build(&mut self, key: &str, v: &refcodec::val::Val) -> Option<Result<Built, String>> {
+        crate::build::build_type(key, v)
+    }
     fn run(&mut self, key: &str, bytes: &[u8]) -> Outcome {
         run_type(key, bytes)
     }
@@ -35,747 +21,6 @@ impl Sut for InProc {
     }
 }
 
-#[derive(Clone, Copy, PartialEq, Debug)]
-pub enum Prop {
-    C01,
-    C03,
-    C13,
-    C14,
-    /// everything (C12: generated structs)
-    All,
-}
-
-impl Prop {
-    fn has(self, p: Prop) -> bool {
-        self == Prop::All || self == p
-    }
-}
-
-pub struct Engine<'a> {
-    pub schema: &'a Schema,
-    pub codec: Codec<'a>,
-    pub gen: Gen<'a>,
-    pub prop: Prop,
-    /// tags known anywhere below each root type (superset of "known on the path")
-    pub reject_counts: std::cell::RefCell<std::collections::BTreeMap<String, u64>>,
-}
-
-fn short(s: &str) -> String {
-    let mut t: String = s.chars().take(300).collect();
-    if s.len() > t.len() {
-        t.push('…');
-    }
-    t
-}
-
-fn sig_err(e: &str) -> String {
-    refcodec::evidence::strip_numbers(e)
-}
-
-/// All tags declared by `def` and every struct reachable from it (plus the date-time inner tags).
-pub fn reachable_tags(schema: &Schema, def: &StructDef, out: &mut BTreeSet<u16>) {
-    for f in &def.fields {
-        if let Some(t) = f.tag {
-            out.insert(t);
-        }
-        match &f.enc {
-            Enc::Struct(k) => reachable_tags(schema, schema.get(k), out),
-            Enc::DateTime => {
-                out.insert(0x1f0e);
-                out.insert(0x1f0f);
-            }
-            _ => {}
-        }
-    }
-}
-
-#[derive(Clone, Debug)]
-struct NodeRef {
-    path: Vec<String>,
-    key: String,
-    /// inside an element of a repeated field or a positional optional: errors are absorbed by "until it fails"
-    weak: bool,
-    ngroups: usize,
-}
-
-fn walk(schema: &Schema, s: &StructNode, path: &mut Vec<String>, weak: bool, out: &mut Vec<NodeRef>) {
-    out.push(NodeRef { path: path.clone(), key: s.key.clone(), weak, ngroups: s.groups.len() });
-    let def = schema.get(&s.key);
-    for (i, n) in s.positional.iter().enumerate() {
-        if let Payload::Struct(c) = &n.payload {
-            let f = def.fields.iter().find(|f| f.name == n.field).unwrap();
-            path.push(format!("p{i}"));
-            walk(schema, c, path, weak || f.card != Card::One, out);
-            path.pop();
-        }
-    }
-    for (gi, g) in s.groups.iter().enumerate() {
-        for (ei, n) in g.elems.iter().enumerate() {
-            if let Payload::Struct(c) = &n.payload {
-                path.push(format!("g{gi}.{ei}"));
-                walk(schema, c, path, weak || g.repeated, out);
-                path.pop();
-            }
-        }
-    }
-}
-
-fn foreign_elem(rng: &mut Rng, known: &BTreeSet<u16>) -> (u16, Node) {
-    let tag = loop {
-        let t: u16 = match rng.below(3) {
-            0 => rng.range(1, 0xfe) as u16,
-            1 => 0x1f00 | rng.below(256) as u16,
-            _ => 0xff00 | rng.below(256) as u16,
-        };
-        if t != 0x1f && t != 0xff && !known.contains(&t) {
-            break t;
-        }
-    };
-    let n = rng.below(6) as usize;
-    let body = rng.bytes(n);
-    (
-        tag,
-        Node {
-            field: format!("foreign_{tag:x}"),
-            tag: refcodec::codec::tag_bytes(tag).unwrap(),
-            len: if rng.chance(2, 3) { Len::Ber } else { Len::None },
-            apdu: false,
-            payload: Payload::Leaf(body),
-        },
-    )
-}
-
-impl<'a> Engine<'a> {
-    pub fn new(schema: &'a Schema, prop: Prop, cfg: GenCfg) -> Self {
-        Engine { schema, codec: Codec::new(schema), gen: Gen::new(schema, cfg), prop, reject_counts: Default::default() }
-    }
-
-    fn count_reject(&self, r: &mut Report, fail: &CanonFail) {
-        let class = match fail {
-            CanonFail::Reject(Reject::TooLong) => "E4_too_long_for_field_or_prefix",
-            CanonFail::Reject(Reject::Alphabet) => "E6_outside_alphabet",
-            CanonFail::Reject(Reject::Tag) => "tag_not_representable",
-            CanonFail::Reject(Reject::Shape) => "harness_shape_error",
-            CanonFail::NotFixedPoint => "E1_E2_E3_E5_E7_not_a_fixed_point",
-            CanonFail::DecodeErr(_) => "E7_reference_cannot_delimit",
-        };
-        r.count(&format!("rejected.{class}"), 1);
-    }
-
-    /// Generate one canonical value (or None after `tries` rejected candidates).
-    pub fn canonical_value(&self, r: &mut Report, rng: &mut Rng, def: &StructDef, presence: Presence, tries: usize) -> Option<(Val, Vec<u8>, Node)> {
-        for _ in 0..tries {
-            let v = self.gen.gen_struct(rng, def, presence, 0);
-            match self.codec.canonical(def, &v) {
-                Ok(b) => {
-                    let tree = self.codec.enc_top(def, &v).unwrap();
-                    return Some((v, b, tree));
-                }
-                Err(f) => self.count_reject(r, &f),
-            }
-        }
-        None
-    }
-
-    fn record_coverage(&self, r: &mut Report, def: &StructDef, v: &Val, b: &[u8]) {
-        // presence matrix
-        if let Val::Struct(fs) = v {
-            for (f, (_, fv)) in def.fields.iter().zip(fs.iter()) {
-                let state = match (f.card, fv) {
-                    (Card::One, _) => continue,
-                    (Card::Opt, Val::Opt(None)) => "absent",
-                    (Card::Opt, _) => "present",
-                    (Card::Many, Val::List(l)) => match l.len() {
-                        0 => "absent",
-                        1 => "present",
-                        _ => {
-                            r.note("seen_many", &format!("{}.{}", def.key, f.name));
-                            "present"
-                        }
-                    },
-                    _ => continue,
-                };
-                r.note(&format!("seen_{state}"), &format!("{}.{}", def.key, f.name));
-            }
-        }
-        if def.cf.is_some() {
-            let form = if b[2] == 0xff { "apdu_extended" } else { "apdu_short" };
-            r.count(&format!("prefix_forms.{form}"), 1);
-            let body = if b[2] == 0xff { b.len() - 5 } else { b.len() - 3 };
-            if (253..=257).contains(&body) {
-                r.note("apdu_switch_points_crossed", &body.to_string());
-            }
-        }
-    }
-
-    /// C03 + C01 on one canonical case.  Returns false if the case could not be judged further.
-    pub fn base_case(&self, sut: &mut dyn Sut, r: &mut Report, def: &StructDef, v: &Val, b: &[u8], focus: Option<&str>) {
-        let expected = render_struct(self.schema, def, v);
-        let nontrivial = b.len() > if def.cf.is_some() { 3 } else { 0 };
-        r.case(fnv(b) ^ fnv(def.key.as_bytes()), nontrivial);
-        self.record_coverage(r, def, v, b);
-        let case = || json!({"kind": "codec", "type": def.key, "value": val_to_json(v), "bytes": hex(b), "expected_debug": short(&expected)});
-        let out = sut.run(&def.key, b);
-        if r.wants_sample() && nontrivial && b.len() < 120 {
-            r.sample(json!({"type": def.key, "bytes": hex(b), "decoded": short(&expected)}));
-        }
-        let field_or_focus = |f: String| if f == "?" { focus.unwrap_or("*").to_string() } else { f };
-        match out {
-            Outcome::Panic(p) => {
-                if self.prop.has(Prop::C03) || self.prop.has(Prop::C01) {
-                    r.violation(
-                        &format!("{}.{}: decode of the reference encoding {}", def.key, focus.unwrap_or("*"), panic_signature(&p)),
-                        &format!("{}::zvt_deserialize panicked on the reference encoding of a canonical value: {p}", def.key),
-                        case(),
-                    );
-                }
-            }
-            Outcome::Err(e) => {
-                if self.prop.has(Prop::C03) {
-                    r.violation(
-                        &format!("{}.{}: decoder rejects the reference encoding ({})", def.key, focus.unwrap_or("*"), sig_err(&e)),
-                        &format!("{}::zvt_deserialize = Err({e}) on bytes assembled from the layout table", def.key),
-                        case(),
-                    );
-                }
-            }
-            Outcome::Ok { debug, rest, reenc, re_eq, re_rest, re_err, re_debug } => {
-                if self.prop.has(Prop::C03) {
-                    if debug != expected {
-                        let f = field_or_focus(first_diff_field(&expected, &debug));
-                        r.violation(
-                            &format!("{}.{}: decoder disagrees with the layout table", def.key, f),
-                            &format!("decoded {} but the layout table says {}", short(&debug), short(&expected)),
-                            case(),
-                        );
-                    } else if rest != 0 {
-                        r.violation(&format!("{}.*: decoder leaves bytes of the reference encoding unread", def.key), &format!("{rest} bytes left over"), case());
-                    }
-                    if reenc != b {
-                        // attribute: decode the re-encoding with the reference and find the first differing field
-                        let f = match self.codec.decode(def, &reenc) {
-                            Ok((v2, _)) => field_or_focus(first_diff_field(&expected, &render_struct(self.schema, def, &v2))),
-                            Err(_) => focus.unwrap_or("*").to_string(),
-                        };
-                        r.violation(
-                            &format!("{}.{}: encoder disagrees with the layout table", def.key, f),
-                            &format!("re-encoded to {} but the layout table says {}", short(&hex(&reenc)), short(&hex(b))),
-                            case(),
-                        );
-                    }
-                }
-                if self.prop.has(Prop::C01) {
-                    // x = decode(B); x' = decode(encode(x)); x' == x, nothing left; and x' still shows V
-                    if let Some(e) = re_err {
-                        r.violation(
-                            &format!("{}.{}: own serialisation is not decodable ({})", def.key, focus.unwrap_or("*"), sig_err(&e)),
-                            &format!("decode(encode(x)) = Err({e}) for x = {}", short(&debug)),
-                            case(),
-                        );
-                    } else if !re_eq || re_rest != 0 {
-                        let f = field_or_focus(first_diff_field(&debug, &re_debug));
-                        r.violation(
-                            &format!("{}.{}: value changes on serialise -> deserialise", def.key, f),
-                            &format!("x = {} but decode(encode(x)) = {} ({} bytes left)", short(&debug), short(&re_debug), re_rest),
-                            case(),
-                        );
-                    } else if debug == expected && re_debug != expected {
-                        let f = field_or_focus(first_diff_field(&expected, &re_debug));
-                        r.violation(&format!("{}.{}: value changes on serialise -> deserialise", def.key, f), &format!("round trip yields {}", short(&re_debug)), case());
-                    }
-                }
-            }
-        }
-    }
-
-    /// Judge the real decoder on mutated bytes against the reference decoder on the same bytes.
-    /// `kind`: "perm" | "dup" | "drop" | "splice" | "suffix" | "sibling"
-    #[allow(clippy::too_many_arguments)]
-    fn differential(&self, sut: &mut dyn Sut, r: &mut Report, prop_name: &str, def: &StructDef, v: &Val, bytes: &[u8], kind: &str, weak: bool, detail: serde_json::Value) {
-        let reference = self.codec.decode(def, bytes);
-        let key = &def.key;
-        let case = || json!({"kind": "codec-mutation", "type": key, "mutation": kind, "detail": detail, "value": val_to_json(v), "bytes": hex(bytes)});
-        let out = sut.decode(key, bytes);
-        let h = fnv(bytes) ^ fnv(key.as_bytes()) ^ fnv(kind.as_bytes());
-        if let Outcome::Panic(p) = &out {
-            r.case(h, true);
-            r.violation(&format!("{prop_name} {key}: {kind} {}", panic_signature(p)), &format!("decoder panicked on a {kind}-mutated packet: {p}"), case());
-            return;
-        }
-        match (kind, &reference) {
-            ("perm", Ok((v2, rest))) => {
-                if v2 != v || !rest.is_empty() {
-                    r.evaluations += 1;
-                    r.count("ambiguous_permutations_not_claimed", 1);
-                    return;
-                }
-                r.case(h, true);
-                let expected = render_struct(self.schema, def, v);
-                match out {
-                    Outcome::Ok { debug, rest, .. } if debug == expected && rest == 0 => {}
-                    Outcome::Ok { debug, rest, .. } => {
-                        let f = first_diff_field(&expected, &debug);
-                        r.violation(&format!("{prop_name} {key}.{f}: permuted tagged fields decode differently"), &format!("got {} ({rest} left), expected {}", short(&debug), short(&expected)), case())
-                    }
-                    Outcome::Err(e) => r.violation(&format!("{prop_name} {key}: permuted tagged fields rejected ({})", sig_err(&e)), &format!("Err({e}) for a permutation of the tagged groups"), case()),
-                    Outcome::Panic(_) => unreachable!(),
-                }
-            }
-            ("dup", Err(RefErr::Duplicate(t))) => {
-                r.case(h, true);
-                let want = format!("DuplicateTag(Tag({t}))");
-                match out {
-                    Outcome::Err(e) if e == want => r.count("duplicates_reported", 1),
-                    Outcome::Err(e) => {
-                        if weak {
-                            r.count("weak_scope_other_error", 1);
-                        } else {
-                            r.violation(&format!("{prop_name} {key}: duplicate tag reported as {}", sig_err(&e)), &format!("expected {want}, got Err({e})"), case())
-                        }
-                    }
-                    Outcome::Ok { debug, .. } => {
-                        if weak {
-                            r.count("weak_scope_truncated", 1);
-                        } else {
-                            r.violation(&format!("{prop_name} {key}: duplicate tag accepted"), &format!("expected {want}, got Ok({})", short(&debug)), case())
-                        }
-                    }
-                    Outcome::Panic(_) => unreachable!(),
-                }
-            }
-            ("drop", Err(RefErr::Missing(ts))) => {
-                r.case(h, true);
-                let want = format!("MissingRequiredTags([{}])", ts.iter().map(|t| format!("Tag({t})")).collect::<Vec<_>>().join(", "));
-                match out {
-                    Outcome::Err(e) if e == want => r.count("missing_reported", 1),
-                    Outcome::Err(e) => {
-                        if weak {
-                            r.count("weak_scope_other_error", 1);
-                        } else {
-                            r.violation(&format!("{prop_name} {key}: missing mandatory tags reported as {}", sig_err(&e)), &format!("expected {want}, got Err({e})"), case())
-                        }
-                    }
-                    Outcome::Ok { debug, .. } => {
-                        if weak {
-                            r.count("weak_scope_truncated", 1);
-                        } else {
-                            r.violation(&format!("{prop_name} {key}: missing mandatory tags accepted"), &format!("expected {want}, got Ok({})", short(&debug)), case())
-                        }
-                    }
-                    Outcome::Panic(_) => unreachable!(),
-                }
-            }
-            ("splice", reference) => {
-                // either rejects the packet, or yields exactly the value of the bytes preceding the unknown tag
-                match (reference, out) {
-                    (_, Outcome::Err(_)) => {
-                        r.case(h, true);
-                        r.count("splice_rejected", 1);
-                    }
-                    (Ok((v2, _)), Outcome::Ok { debug, .. }) => {
-                        r.case(h, true);
-                        let expected = render_struct(self.schema, def, v2);
-                        if debug != expected {
-                            let f = first_diff_field(&expected, &debug);
-                            r.violation(&format!("{prop_name} {key}.{f}: unknown tag disturbs the decoded value"), &format!("got {}, the bytes preceding the unknown tag say {}", short(&debug), short(&expected)), case());
-                        } else {
-                            r.count("splice_truncated_ok", 1);
-                        }
-                    }
-                    (Err(e), Outcome::Ok { debug, .. }) => {
-                        if weak || !matches!(e, RefErr::Missing(_)) {
-                            r.evaluations += 1;
-                            r.count("splice_unclaimed", 1);
-                        } else {
-                            r.case(h, true);
-                            r.violation(&format!("{prop_name} {key}: packet with an unknown tag before mandatory fields accepted"), &format!("reference: {e:?}, got Ok({})", short(&debug)), case());
-                        }
-                    }
-                    (_, Outcome::Panic(_)) => unreachable!(),
-                }
-            }
-            ("suffix" | "sibling", Ok((v2, rest))) => {
-                r.case(h, true);
-                let expected = render_struct(self.schema, def, v2);
-                match out {
-                    Outcome::Ok { debug, rest: got_rest, .. } if debug == expected && got_rest == rest.len() => {}
-                    Outcome::Ok { debug, rest: got_rest, .. } => {
-                        let f = if debug != expected { first_diff_field(&expected, &debug) } else { "remainder".into() };
-                        r.violation(
-                            &format!("{prop_name} {key}.{f}: bytes outside the announced length influence the result ({kind})"),
-                            &format!("got {} with {got_rest} bytes left; expected {} with {} bytes left", short(&debug), short(&expected), rest.len()),
-                            case(),
-                        )
-                    }
-                    Outcome::Err(e) => r.violation(&format!("{prop_name} {key}: {kind} bytes make the decoder fail ({})", sig_err(&e)), &format!("Err({e}); expected {} with {} bytes left", short(&expected), rest.len()), case()),
-                    Outcome::Panic(_) => unreachable!(),
-                }
-            }
-            _ => {
-                r.evaluations += 1;
-                r.count(&format!("{kind}_unclaimed_reference_outcome"), 1);
-            }
-        }
-    }
-
-    /// C13: permutations, duplicates, removals, foreign tags at every struct node.
-    #[allow(clippy::too_many_arguments)]
-    pub fn c13_cases(&self, sut: &mut dyn Sut, r: &mut Report, rng: &mut Rng, prop_name: &str, def: &StructDef, v: &Val, tree: &Node, max_perms: usize) {
-        let Payload::Struct(root) = &tree.payload else { return };
-        let mut nodes = vec![];
-        walk(self.schema, root, &mut vec![], false, &mut nodes);
-        let mut known = BTreeSet::new();
-        reachable_tags(self.schema, def, &mut known);
-        for nr in nodes.iter().filter(|n| n.ngroups > 0 || self.schema.get(&n.key).fields.iter().any(|f| f.tag.is_some())) {
-            let n = nr.ngroups;
-            let apply = |f: &mut dyn FnMut(&mut StructNode)| -> Option<Vec<u8>> {
-                let mut t = tree.clone();
-                f(t.struct_at_mut(&nr.path)?);
-                t.bytes()
-            };
-            let where_ = json!({"node": nr.key, "path": nr.path, "weak_scope": nr.weak});
-            // (a) permutations
-            if n >= 2 {
-                let perms: Vec<Vec<usize>> = if n <= 6 && factorial(n) <= max_perms {
-                    r.note("nodes_with_all_permutations", &format!("{}:{}", nr.key, n));
-                    all_permutations(n)
-                } else {
-                    (0..max_perms.min(200))
-                        .map(|_| {
-                            let mut p: Vec<usize> = (0..n).collect();
-                            rng.shuffle(&mut p);
-                            p
-                        })
-                        .collect()
-                };
-                for p in perms {
-                    if p.iter().enumerate().all(|(i, x)| i == *x) {
-                        continue;
-                    }
-                    if let Some(b) = apply(&mut |s: &mut StructNode| {
-                        let old = s.groups.clone();
-                        s.groups = p.iter().map(|i| old[*i].clone()).collect();
-                    }) {
-                        self.differential(sut, r, prop_name, def, v, &b, "perm", nr.weak, json!({"at": where_, "order": p}));
-                    }
-                }
-            }
-            // (b) duplicates of a non-repeated group at every position
-            for gi in 0..n {
-                for pos in 0..=n {
-                    if pos == gi {
-                        continue; // directly before itself: same as pos gi+1 for a single-element group
-                    }
-                    let mut skip = false;
-                    if let Some(b) = apply(&mut |s: &mut StructNode| {
-                        if s.groups[gi].repeated {
-                            skip = true;
-                            return;
-                        }
-                        let g = s.groups[gi].clone();
-                        s.groups.insert(pos, g);
-                    }) {
-                        if !skip {
-                            self.differential(sut, r, prop_name, def, v, &b, "dup", nr.weak, json!({"at": where_, "group": gi, "copy_at": pos}));
-                        }
-                    }
-                }
-            }
-            // (c) removal of every non-empty subset of the mandatory groups
-            let mandatory: Vec<usize> = {
-                let mut t = tree.clone();
-                t.struct_at_mut(&nr.path).map(|s| s.groups.iter().enumerate().filter(|(_, g)| g.mandatory).map(|(i, _)| i).collect()).unwrap_or_default()
-            };
-            if !mandatory.is_empty() && mandatory.len() <= 6 {
-                for mask in 1u32..(1 << mandatory.len()) {
-                    let drop: Vec<usize> = mandatory.iter().enumerate().filter(|(i, _)| mask & (1 << i) != 0).map(|(_, g)| *g).collect();
-                    if let Some(b) = apply(&mut |s: &mut StructNode| {
-                        let mut i = 0;
-                        s.groups.retain(|_| {
-                            let keep = !drop.contains(&i);
-                            i += 1;
-                            keep
-                        });
-                    }) {
-                        self.differential(sut, r, prop_name, def, v, &b, "drop", nr.weak, json!({"at": where_, "dropped_groups": drop}));
-                    }
-                }
-            }
-            // (d) a foreign tag at every group position
-            for pos in 0..=n {
-                for _ in 0..2 {
-                    let (tag, elem) = foreign_elem(rng, &known);
-                    if let Some(b) = apply(&mut |s: &mut StructNode| {
-                        s.groups.insert(pos, Group { field: elem.field.clone(), tag, mandatory: false, repeated: false, elems: vec![elem.clone()] });
-                    }) {
-                        self.differential(sut, r, prop_name, def, v, &b, "splice", nr.weak, json!({"at": where_, "position": pos, "foreign_tag": format!("{tag:x}")}));
-                    }
-                }
-            }
-        }
-    }
-
-    /// C14: suffixes behind a packet; attractive bytes behind every nested length-prefixed container.
-    #[allow(clippy::too_many_arguments)]
-    pub fn c14_cases(&self, sut: &mut dyn Sut, r: &mut Report, rng: &mut Rng, prop_name: &str, def: &StructDef, v: &Val, b: &[u8], tree: &Node, all_single_bytes: bool, other_packets: &[Vec<u8>]) {
-        if def.cf.is_some() {
-            let mut suffixes: Vec<Vec<u8>> = vec![];
-            if all_single_bytes {
-                suffixes.extend((0..=255u8).map(|x| vec![x]));
-            } else {
-                for _ in 0..6 {
-                    suffixes.push(vec![rng.byte()]);
-                }
-                suffixes.push(vec![0x00]);
-                suffixes.push(vec![0xff]);
-                suffixes.push(vec![0x06]);
-            }
-            // a valid packet; the packet itself again
-            suffixes.push(b.to_vec());
-            if !other_packets.is_empty() {
-                suffixes.push(rng.pick(other_packets).clone());
-            }
-            // bytes that continue the last field's encoding
-            suffixes.push(vec![0x12, 0x34, 0x56]);
-            suffixes.push(b"continued text".to_vec());
-            if let Payload::Struct(root) = &tree.payload {
-                if let Some(last) = root.groups.last().and_then(|g| g.elems.last()) {
-                    if let Some(lb) = last.bytes() {
-                        suffixes.push(lb); // another element with the last field's tag
-                    }
-                }
-                for g in &root.groups {
-                    if let Some(e) = g.elems.first().and_then(|e| e.bytes()) {
-                        if rng.chance(1, 3) {
-                            suffixes.push(e);
-                        }
-                    }
-                }
-            }
-            for _ in 0..4 {
-                let n = 1 + rng.below(64) as usize;
-                suffixes.push(rng.bytes(n));
-            }
-            for s in suffixes {
-                let mut input = b.to_vec();
-                input.extend_from_slice(&s);
-                // expectation: same value, remainder == suffix (reference decoder on the same bytes says so too)
-                match self.codec.decode(def, &input) {
-                    Ok((v2, rest)) if &v2 == v && rest.len() == s.len() => {
-                        self.differential(sut, r, prop_name, def, v, &input, "suffix", false, json!({"suffix": hex(&s[..s.len().min(40)]), "suffix_len": s.len()}));
-                    }
-                    _ => r.inconclusive(&format!("reference codec itself is influenced by a suffix on {} — harness error", def.key)),
-                }
-            }
-        }
-        // nested containers: put attractive bytes right behind a length-prefixed element, inside the parent
-        let Payload::Struct(root) = &tree.payload else { return };
-        let mut nodes = vec![];
-        walk(self.schema, root, &mut vec![], false, &mut nodes);
-        let mut known = BTreeSet::new();
-        reachable_tags(self.schema, def, &mut known);
-        for nr in &nodes {
-            let n = nr.ngroups;
-            for gi in 0..n {
-                // the element we protect: last element of group gi, if it is a length-prefixed container or leaf
-                let mut t0 = tree.clone();
-                let Some(s0) = t0.struct_at_mut(&nr.path) else { continue };
-                let elem = s0.groups[gi].elems.last().unwrap().clone();
-                if matches!(elem.len, Len::None | Len::Temp) {
-                    continue;
-                }
-                let mut junk: Vec<Vec<Node>> = vec![];
-                // (1) a field of the *container's own struct* placed outside its length
-                if let Payload::Struct(inner) = &elem.payload {
-                    for g in inner.groups.iter().take(3) {
-                        junk.push(vec![g.elems[0].clone()]);
-                    }
-                    let idef = self.schema.get(&inner.key);
-                    for f in idef.fields.iter().filter(|f| f.tag.is_some()).take(8) {
-                        if rng.chance(1, 2) {
-                            let val = self.gen.gen_scalar(rng, f, 3);
-                            if let Ok(node) = self.codec.enc_struct(&StructDef { key: "tmp".into(), cf: None, fields: vec![Field { card: Card::One, ..f.clone() }] }, &Val::Struct(vec![(f.name.clone(), val)])) {
-                                if let Some(g) = node.groups.first() {
-                                    junk.push(g.elems.clone());
-                                }
-                            }
-                        }
-                    }
-                }
-                // (2) a foreign TLV / raw bytes continuing the payload
-                junk.push(vec![foreign_elem(rng, &known).1]);
-                if let Payload::Leaf(p) = &elem.payload {
-                    // more of the same payload (more digits, more text)
-                    let more = if p.is_empty() { vec![0x31, 0x32] } else { p[..p.len().min(4)].to_vec() };
-                    junk.push(vec![Node { field: "more".into(), tag: vec![], len: Len::None, apdu: false, payload: Payload::Leaf(more) }]);
-                }
-                for j in junk {
-                    let mut t = tree.clone();
-                    let s = t.struct_at_mut(&nr.path).unwrap();
-                    // insert the junk as its own pseudo group right behind group gi
-                    s.groups.insert(gi + 1, Group { field: "junk".into(), tag: 0, mandatory: false, repeated: false, elems: j.clone() });
-                    let Some(bytes) = t.bytes() else { continue };
-                    // claimed only where the reference decoder still sees the protected field unchanged
-                    let Ok((v2, _)) = self.codec.decode(def, &bytes) else {
-                        r.evaluations += 1;
-                        r.count("sibling_reference_rejects_not_claimed", 1);
-                        continue;
-                    };
-                    let _ = v2;
-                    let jb: Vec<u8> = j.iter().flat_map(|n| n.bytes().unwrap_or_default()).collect();
-                    self.differential(sut, r, prop_name, def, v, &bytes, "sibling", nr.weak, json!({"node": nr.key, "path": nr.path, "behind_field": s_field_name(tree, &nr.path, gi), "junk": hex(&jb[..jb.len().min(40)])}));
-                }
-            }
-        }
-    }
-}
-
-fn s_field_name(tree: &Node, path: &[String], gi: usize) -> String {
-    let mut t = tree.clone();
-    t.struct_at_mut(path).map(|s| s.groups[gi].field.clone()).unwrap_or_default()
-}
-
-fn factorial(n: usize) -> usize {
-    (1..=n).product()
-}
-
-fn all_permutations(n: usize) -> Vec<Vec<usize>> {
-    fn rec(cur: &mut Vec<usize>, used: &mut Vec<bool>, n: usize, out: &mut Vec<Vec<usize>>) {
-        if cur.len() == n {
-            out.push(cur.clone());
-            return;
-        }
-        for i in 0..n {
-            if !used[i] {
-                used[i] = true;
-                cur.push(i);
-                rec(cur, used, n, out);
-                cur.pop();
-                used[i] = false;
-            }
-        }
-    }
-    let mut out = vec![];
-    rec(&mut vec![], &mut vec![false; n], n, &mut out);
-    out
-}
-
-// ---------------------------------------------------------------- drivers
-
-pub struct Plan {
-    pub per_type_random: usize,
-    pub per_field_alone: usize,
-    pub all_present: usize,
-    pub mutation_bases: usize,
-    pub max_perms: usize,
-    pub big: bool,
-}
-
-/// Run the engine over a set of struct types with the given SUT factory.
-pub fn run_types(ctx: &Ctx, report: &mut Report, schema: &Schema, keys: &[String], prop: Prop, prop_name: &str, plan: &Plan, make_sut: &(dyn Fn() -> Box<dyn Sut> + Sync)) {
-    let threads = ctx.threads.min(keys.len().max(1));
-    let seed = ctx.seed;
-    sharded(report, threads, |shard, r| {
-        let mut sut = make_sut();
-        let engine = Engine::new(schema, prop, GenCfg { big: plan.big, stray_pct: 3 });
-        let mut other_packets: Vec<Vec<u8>> = vec![];
-        for (ti, key) in keys.iter().enumerate() {
-            if ti % threads != shard {
-                continue;
-            }
-            let def = schema.get(key);
-            let mut rng = Rng::derive(seed, fnv(key.as_bytes()));
-            let nopt = Gen::optional_fields(def).len();
-            let mut schedule: Vec<(Presence, Option<String>)> = vec![(Presence::AllAbsent, None)];
-            for k in 0..nopt {
-                let fname = def.fields[Gen::optional_fields(def)[k]].name.clone();
-                for _ in 0..plan.per_field_alone {
-                    schedule.push((Presence::Only(k), Some(fname.clone())));
-                }
-            }
-            for _ in 0..plan.all_present {
-                schedule.push((Presence::AllPresent, None));
-            }
-            for _ in 0..plan.per_type_random {
-                schedule.push((Presence::Random, None));
-            }
-            let mut accepted = 0u64;
-            let mut all_absent_canonical = false;
-            let mut mutation_bases = 0usize;
-            for (presence, focus) in schedule {
-                let Some((v, b, tree)) = engine.canonical_value(r, &mut rng, def, presence, 12) else {
-                    continue;
-                };
-                accepted += 1;
-                if presence == Presence::AllAbsent {
-                    all_absent_canonical = true;
-                }
-                if other_packets.len() < 32 && def.cf.is_some() {
-                    other_packets.push(b.clone());
-                }
-                if prop.has(Prop::C01) || prop.has(Prop::C03) {
-                    engine.base_case(sut.as_mut(), r, def, &v, &b, focus.as_deref());
-                } else {
-                    engine.record_coverage(r, def, &v, &b);
-                }
-                let do_mut = mutation_bases < plan.mutation_bases && (presence != Presence::Random || rng.chance(1, 2) || prop != Prop::All);
-                if do_mut && b.len() < 4000 {
-                    if prop.has(Prop::C13) {
-                        engine.c13_cases(sut.as_mut(), r, &mut rng, prop_name, def, &v, &tree, plan.max_perms);
-                    }
-                    if prop.has(Prop::C14) {
-                        let all_bytes = mutation_bases == 0;
-                        engine.c14_cases(sut.as_mut(), r, &mut rng, prop_name, def, &v, &b, &tree, all_bytes, &other_packets);
-                    }
-                    mutation_bases += 1;
-                }
-            }
-            r.count("types_exercised", 1);
-            r.count("canonical_values", accepted);
-            if accepted == 0 {
-                r.inconclusive(&format!("no canonical value could be generated for {key}"));
-            }
-            if all_absent_canonical {
-                r.note("all_absent_is_canonical", key);
-            }
-        }
-    });
-}
-
-/// Presence-matrix floor: every optional field seen present, and seen absent where "all absent" is canonical.
-pub fn presence_floor(report: &mut Report, schema: &Schema, keys: &[String]) {
-    let present = report.sets.get("seen_present").cloned().unwrap_or_default();
-    let absent = report.sets.get("seen_absent").cloned().unwrap_or_default();
-    let all_absent_ok = report.sets.get("all_absent_is_canonical").cloned().unwrap_or_default();
-    let mut gaps = vec![];
-    for key in keys {
-        let def = schema.get(key);
-        for f in def.fields.iter().filter(|f| f.card != Card::One) {
-            let id = format!("{}.{}", key, f.name);
-            if !present.contains(&id) {
-                gaps.push(format!("{id} never present"));
-            }
-            if !absent.contains(&id) && all_absent_ok.contains(key) {
-                gaps.push(format!("{id} never absent"));
-            }
-        }
-    }
-    report.extra.insert("presence_matrix_complete".into(), json!(gaps.is_empty()));
-    report.extra.insert("presence_gaps".into(), json!(gaps));
-    if !gaps.is_empty() {
-        report.inconclusive(&format!("presence matrix incomplete: {}", gaps.join("; ")));
-    }
-    // keep the evidence file readable: the matrix itself is summarised
-    let np = present.len();
-    let na = absent.len();
-    report.sets.remove("seen_present");
-    report.sets.remove("seen_absent");
-    report.sets.remove("all_absent_is_canonical");
-    let nm = report.sets.remove("seen_many").map(|s| s.len()).unwrap_or(0);
-    report.extra.insert("fields_seen_present".into(), json!(np));
-    report.extra.insert("fields_seen_absent".into(), json!(na));
-    report.extra.insert("repeated_fields_seen_with_2plus_elements".into(), json!(nm));
-}
 
 pub fn run(ctx: &Ctx, id: &str) -> i32 {
     let schema = refcodec::zvt_schema();
@@ -816,7 +61,7 @@ pub fn run(ctx: &Ctx, id: &str) -> i32 {
         "typed values are compared through derived Debug (field names + values) and the types' own PartialEq".into(),
     ];
     let make: &(dyn Fn() -> Box<dyn Sut> + Sync) = &|| Box::new(InProc);
-    run_types(ctx, &mut report, &schema, &keys, prop, id, &plan, make);
+    run_types(ctx.threads, ctx.seed, &mut report, &schema, &keys, prop, id, &plan, make);
     presence_floor(&mut report, &schema, &keys);
     report.extra.insert("types".into(), json!(keys.len()));
     report.finish()
